@@ -484,6 +484,56 @@ pub fn run(tier: Tier) -> i32 {
             }
         }
     }
+    // ---- a configured trigger period changes nothing but [E45]: every stave-mode witness, clean and with each fault of
+    //      the catalogue at its first and last site, run with the stave filter alone and with the stave filter plus
+    //      `-p P` - the messages other than [E45] are the same, message for message
+    let mut period_neutral_runs = 0u64;
+    {
+        let cat = crate::faults::catalogue();
+        let mut jobs: Vec<(String, Vec<u8>, String)> = Vec::new();
+        for w in crate::c02::witnesses().into_iter().filter(|w| w.stave) {
+            let fee = w.links[0][0].packet.rdh.fee_id;
+            let stave = format!("L{}_{}", (fee >> 12) & 7, fee & 0x3F);
+            jobs.push((format!("{} clean", w.name), grammar::interleave(&w.links, &w.order).bytes(), stave.clone()));
+            for f in cat.iter() {
+                let sites = crate::c02::sites(&w, f);
+                for si in [0usize, sites.len().saturating_sub(1)].into_iter().filter(|i| *i < sites.len()).collect::<BTreeSet<_>>() {
+                    let m = crate::c02::mutate(&w, f, sites[si]);
+                    jobs.push((format!("{} + {} (site {si})", w.name, f.name), m.packets.iter().flat_map(|(_, p)| p.packet.bytes()).collect(), stave.clone()));
+                }
+            }
+        }
+        let pres = par_map(&jobs, |_, (_, bytes, stave)| -> Option<String> {
+            let run = |period: Option<&str>| {
+                let scratch = Scratch::new("c20p");
+                let mut a = vec![scratch.file("in.raw", bytes).display().to_string(), "check".into(), "all".into(), "its-stave".into(), "--filter-its-stave".into(), stave.clone(), "-E".into(), "9".into()];
+                if let Some(p) = period {
+                    a.extend(["-p".to_string(), p.to_string()]);
+                }
+                Run::new(&a).cwd(&scratch.path).run()
+            };
+            let r0 = run(None);
+            let r1 = run(Some("1234"));
+            if r0.crashed() || r1.crashed() {
+                return Some(format!("crash (signals {:?} / {:?})", r0.signal, r1.signal));
+            }
+            let keep = |r: &fp_harness::cli::RunResult| -> Vec<String> { split_cli_errors(&r.stderr_str()).into_iter().filter(|m| !m.contains("[E45]")).map(|m| crate::c02::strip_ansi(&m)).collect() };
+            let (m0, m1) = (keep(&r0), keep(&r1));
+            if m0 != m1 {
+                let only0: Vec<&String> = m0.iter().filter(|m| !m1.contains(m)).collect();
+                let only1: Vec<&String> = m1.iter().filter(|m| !m0.contains(m)).collect();
+                return Some(format!("{} messages without -p, {} with -p (not counting [E45]); only without: {:?}; only with: {:?}", m0.len(), m1.len(), only0.first().map(|x| x.lines().next().unwrap_or("").to_string()), only1.first().map(|x| x.lines().next().unwrap_or("").to_string())));
+            }
+            None
+        });
+        for ((label, bytes, stave), r) in jobs.iter().zip(pres.iter()) {
+            period_neutral_runs += 2;
+            if let Some(d) = r {
+                rep.violation(Violation { signature: "period:other-findings-change-with-the-period-option".into(), description: format!("{d} [{label}, --filter-its-stave {stave}]"), replay: json!({"input_hex": hex(bytes), "stave": stave}) });
+            }
+        }
+    }
+    rep.cov("period_neutral_runs", json!(period_neutral_runs));
     // generated default file == no file (in check all its too)
     {
         let scratch = Scratch::new("c20g");
